@@ -6,7 +6,7 @@ namespace Op2.Bits
 open Op2
 
 /-- `IsPowerOf2(uint32_t)`: `value && !(value & (value - 1))` with the subtraction in 32 bits -/
-def isPow2 (v : Nat) : Bool := v != 0 && (v &&& u32 (v + W32 - 1)) == 0
+def isPow2 (v : Nat) : Bool := v != 0 && (v &&& u32 (W32 + v - 1)) == 0
 
 def deBruijn : List Nat :=
   [0, 1, 28, 2, 29, 14, 24, 3, 30, 22, 20, 15, 25, 17, 4, 8,
